@@ -554,6 +554,13 @@ fn enumerate_prims() -> Vec<Sc> {
             for index in 0..=m {
                 v.push(Sc::PrimGene { la, lb, index, seed: 0 });
             }
+            // indices at the far end of the integer range (index + 1 must not be computed carelessly)
+            for index in [usize::MAX, usize::MAX - 1, 1 << 63, 1 << 32] {
+                v.push(Sc::PrimGene { la, lb, index, seed: 0 });
+            }
+            for (start, end) in [(0, usize::MAX), (usize::MAX, usize::MAX), (usize::MAX - 1, usize::MAX), (usize::MAX, 0), (1, 1 << 63)] {
+                v.push(Sc::PrimSegment { la, lb, start, end, seed: 0 });
+            }
             for start in 0..=m {
                 for end in 0..=m {
                     v.push(Sc::PrimSegment { la, lb, start, end, seed: 0 });
